@@ -45,6 +45,33 @@ fn class_of(x: f64) -> String {
     }
 }
 
+/// `format("{}", v)` for a value built around x: the text must be the composition of the displays
+/// of its parts, whatever the container.
+fn format_in_containers(x: f64) -> Vec<(String, Result<String, String>, String)> {
+    let single = match format_builtin(x) {
+        Ok(s) => s,
+        Err(_) => return vec![],
+    };
+    let two = format_builtin(2.0).unwrap_or_default();
+    let big = format_builtin(1234567.0).unwrap_or_default();
+    let mut out = vec![];
+    let run = |build: &dyn Fn(&mut Heap) -> Value| -> Result<String, String> {
+        let heap = Rc::new(RefCell::new(Heap::new()));
+        let env = Rc::new(Environment::new());
+        let fmt = heap.borrow_mut().insert_string("{}".to_string());
+        let v = build(&mut heap.borrow_mut());
+        let def = FunctionDef::BuiltIn(BuiltInFunction::Format);
+        let r = def.call(Value::BuiltIn(BuiltInFunction::Format), vec![fmt, v], Rc::clone(&heap), env, 0, "").map_err(|e| e.message)?;
+        let s = r.as_string(&heap.borrow()).map_err(|e| e.to_string())?.to_string();
+        Ok(s)
+    };
+    out.push(("[x]".to_string(), run(&|h| h.insert_list(vec![Value::Number(x)])), format!("[{}]", single)));
+    out.push(("[x, 2]".to_string(), run(&|h| h.insert_list(vec![Value::Number(x), Value::Number(2.0)])), format!("[{}, {}]", single, two)));
+    out.push(("[1234567, x, x]".to_string(), run(&|h| h.insert_list(vec![Value::Number(1234567.0), Value::Number(x), Value::Number(x)])), format!("[{}, {}, {}]", big, single, single)));
+    out.push(("[[x, 2], 2]".to_string(), run(&|h| { let inner = h.insert_list(vec![Value::Number(x), Value::Number(2.0)]); h.insert_list(vec![inner, Value::Number(2.0)]) }), format!("[[{}, {}], {}]", single, two, two)));
+    out
+}
+
 pub fn run(ctx: &Ctx, replay: Option<&J>) -> i32 {
     if let Some(r) = replay {
         let bits = u64::from_str_radix(r["case"]["bits"].as_str().unwrap_or("0"), 16).unwrap_or(0);
@@ -81,6 +108,29 @@ pub fn run(ctx: &Ctx, replay: Option<&J>) -> i32 {
                 observed: format!("{:?}", other),
                 case: json!({"bits": format!("{:016x}", x.to_bits())}),
             }),
+        }
+    }
+    // the same numbers inside lists (one element, two, three, nested): the displayed text is the
+    // composition of the single displays
+    {
+        let step = if ctx.quick() { 7 } else { 1 };
+        let sub: Vec<f64> = grid.iter().cloned().step_by(step).collect();
+        let rows: Vec<Vec<(String, Result<String, String>, String)>> = par_map(&sub, |x| catch(|| format_in_containers(*x)).unwrap_or_default());
+        for (x, row) in sub.iter().zip(rows.iter()) {
+            for (shape, got, want) in row {
+                ctx.count(1);
+                ctx.outcome("display-in-container");
+                if got.as_ref().ok() != Some(want) {
+                    ctx.violation(Violation {
+                        kind: "display-in-container".into(),
+                        class: class_of(*x),
+                        input: format!("format(\"{{}}\", {}) with x = {:?} ({:016x})", shape, x, x.to_bits()),
+                        expected: want.clone(),
+                        observed: format!("{:?}", got),
+                        case: json!({"bits": format!("{:016x}", x.to_bits())}),
+                    });
+                }
+            }
         }
     }
     let answers = match oracle::ask(&requests) {
